@@ -14,7 +14,7 @@ import (
 func init() {
 	register(&Property{
 		ID:          "C14",
-		Explanation: "A non-interference argument by construction, each step a rule. R1 (key provenance): the key of every TTLMap.Get/Set in the rate limiter and of every connections[...] access in the connection limiter is, unchanged, the token returned by the extractor for the current request (followed from the Extract call through the call arguments into the keyed access). R2 (decision slice): the admission comparison of the connection limiter mentions only connections[key], the configured maximum and the request's own amount (normal form; no total, no len of the map, no iteration over it); on the rate-limiter side the bucket code (construction, update, consume, rollback) reads no package-level variable and no limiter field, so a bucket set depends only on its own history and the clock. R3 (eviction): in the TTL map the space-freeing routine is called only on the path that inserts a NEW key, only on the len >= capacity edge and for exactly 1 entry; it removes expired entries first and otherwise pops the heap, whose order is strictly by expiry; Get deletes only on the expired edge, only the entry found under its own key, removing that very entry's heap item unconditionally (heap.Remove with the item's own index).",
+		Explanation: "A non-interference argument by construction, each step a rule. R1 (key provenance): the key of every TTLMap.Get/Set in the rate limiter and of every connections[...] access in the connection limiter is, unchanged, the token returned by the extractor for the current request (followed from the Extract call through the call arguments into the keyed access). R2 (decision slice): the admission comparison of the connection limiter mentions only connections[key], the configured maximum and the request's own amount (normal form; no total, no len of the map, no iteration over it); on the rate-limiter side the bucket code (construction, update, consume, rollback) reads no package-level variable and no limiter field, so a bucket set depends only on its own history and the clock. R3 (eviction): in the TTL map the space-freeing routine is called only on the path that inserts a NEW key, only on the len >= capacity edge and for exactly 1 entry; it removes expired entries first and otherwise pops the heap, whose order is strictly by expiry; Get deletes only on the expired edge, only the entry found under its own key, removing that very entry's heap item unconditionally (heap.Remove with the item's own index). R4 (= C03.R8): the TTL map has the configured capacity. R5 (= C19.R1): the client.ip token is the parser's host result, so distinct peers never share a token.",
 		NotDecided: []string{
 			"heap correctness (container/heap, trusted); that the projection of each source's decisions equals its solo run is the consequence of R1-R3 argued on paper, not replayed",
 		},
